@@ -119,8 +119,56 @@ def triage_trusted(repo: Repo, site_key: str) -> bool:
         # REP-INVARIANT decides - each method agrees with a stack of full copies, raises included, on every state
         # satisfying the representation invariant.  The premise is re-checked instead of pinning the text.
         return stack_agrees_with_reference(repo)
+    if _exc == "RuntimeError" and func.startswith("src/pest/grammar/optimizer.py::") and "|raise|" in site_key:
+        # the reason ("only reachable for steps with fixed_point=True; no default step sets it") is about who reaches
+        # the function, not about its text: it is re-checked as two premises instead of being pinned by a digest
+        return referenced_only_under_flag(repo, func, "fixed_point") and _no_fixed_point_default_quiet(repo)
     want = _DIGESTS.get(site_key)
     return want is not None and want == function_digest(repo, func, expr)
+
+
+def _no_fixed_point_default_quiet(repo: Repo) -> bool:
+    shadow = Check("C11", "quick", "")
+    try:
+        return no_fixed_point_default(shadow, repo)
+    except AnalysisError:
+        return False
+
+
+def referenced_only_under_flag(repo: Repo, func: str, flag: str) -> bool:
+    """Every reference to the function (call or address taken, anywhere in the package) lies on the true side of a
+    test - an `if` statement or a conditional expression - that reads the attribute `flag`, not negated: the
+    function runs only for objects that set the flag."""
+    rel, qual = func.split("::", 1)
+    name = qual.split(".")[-1]
+    refs = 0
+    for r in repo.py_files:
+        tree = repo.mod(r).tree
+        parents: dict[int, ast.AST] = {}
+        for n in ast.walk(tree):
+            for c in ast.iter_child_nodes(n):
+                parents[id(c)] = n
+        for n in ast.walk(tree):
+            if not ((isinstance(n, ast.Attribute) and n.attr == name) or (isinstance(n, ast.Name) and n.id == name and isinstance(n.ctx, ast.Load))):
+                continue
+            refs += 1
+            cur: ast.AST = n
+            guarded = False
+            while id(cur) in parents:
+                par = parents[id(cur)]
+                if isinstance(par, (ast.If, ast.IfExp)):
+                    on_true = (cur is par.body) if isinstance(par, ast.IfExp) else any(cur is b for b in par.body)
+                    reads = any(isinstance(t, ast.Attribute) and t.attr == flag for t in ast.walk(par.test))
+                    negated = isinstance(par.test, ast.UnaryOp) and isinstance(par.test.op, ast.Not)
+                    if on_true and reads and not negated and not isinstance(par.test, ast.BoolOp):
+                        guarded = True
+                        break
+                if isinstance(par, (ast.FunctionDef, ast.Lambda)):
+                    break
+                cur = par
+            if not guarded:
+                return False
+    return refs > 0
 
 
 _STACK_OK: dict[int, bool] = {}
